@@ -459,6 +459,9 @@ def work(ctx, tier):
     # ------------------------------------------------------------------ one retry_after_or object shared by threads
     shared_strategy_threads(ctx, viol, rng, tier)
 
+    # ------------------------------------------------------------------ the strategy asked directly: the hint window over value grids
+    direct_hint_window(ctx, viol, rng, tier)
+
     # ------------------------------------------------------------------ end to end
     n2 = (10000 if tier == "quick" else 160000) // ctx.nshards
     for i in range(n2):
@@ -471,6 +474,37 @@ def work(ctx, tier):
     if ctx.shard == 0:
         ctx.sample({"value": "9" * 20 + "...(len 309)", "shape": "dict", "where": "headers", "expect": "no raise; hint None or non-negative float"})
         ctx.sample({"value": date_cases[5][0], "shape": "pairs", "casing": "RETRY-AFTER", "expect": "hint ~ 30 s"})
+
+
+def direct_hint_window(ctx, viol, rng, tier):
+    """retry_after_or called directly (no policy around it) over grids of hints, jitter_s (negative, zero, huge, infinite), remaining
+    times and adversarial draws: at least the hint, at most hint + jitter_s, unless the remaining time is smaller.  (The function
+    under test and the draw model are those of C18's check, which itself does not judge this sentence.)"""
+    from . import c18
+
+    world = env.World()
+    draws = c18.Draws(rng, ctx)
+    world.draws = draws
+    HINTS = [0.0, 1e-9, 0.5, 3.0, 120.0, 1e308, 1.7976931348623157e308, 5, 0, 10**18, -0.0, -5.0]
+    JIT = [0.0, 0.25, -1.0, 1e308, 1e-12, 5.0, math.inf]
+    REM = [None, 0.0, 1e-9, 0.5, 1.0, 60.0, 1e308]
+    idx = 0
+    with env.active(world):
+        for hint in HINTS:
+            for j in JIT:
+                for rem in REM:
+                    for mode in ("zero", "umax", "upper", "half"):
+                        idx += 1
+                        if idx % ctx.nshards != ctx.shard:
+                            continue
+                        c18._rao_case(ctx, viol, draws, hint, j, rem, 0.125, mode, judge_window=True)
+                        ctx.cnt["direct_hint_window_cases"] += 1
+        for i in range((4000 if tier == "quick" else 100000) // ctx.nshards):
+            hint = rng.choice(HINTS) if rng.random() < 0.5 else rng.uniform(0, 1000)
+            j = rng.choice(JIT) if rng.random() < 0.6 else rng.uniform(0, 10)
+            rem = rng.choice(REM) if rng.random() < 0.6 else rng.uniform(0, 100)
+            c18._rao_case(ctx, viol, draws, hint, j, rem, rng.choice([0.0, 0.125, 7.5]), rng.choice(c18.MODES), shape=c18.FALLBACK_SHAPES[i % len(c18.FALLBACK_SHAPES)] if i % 3 == 0 else "ctx-lambda", judge_window=True)
+            ctx.cnt["direct_hint_window_cases"] += 1
 
 
 def shared_strategy_threads(ctx, viol, rng, tier):
